@@ -16,6 +16,7 @@ PROP = {
              "ParseAccountID / UnmarshalJSON in a tight loop (4000 passes, wall-clock bounded) and all parsers incl. ParseAddress, "
              "AccountIDFromRaw, ParseADNLAddress on valid strings next to their single-character substitutions; every result must equal "
              "the sequential one (the model's), a crash/hang of the child is a reported outcome. "
+             "Raw-form lengths: 13 workchain spellings (0, -1, 12, -128, 127, 100000, int32 edges, +1, 007, -0, out of range, non-numeric) x EVERY hex length 0..66 (short hex is zero filled, so the total text length takes every value 2..78 and collides with the fixed lengths of the other forms: 48 user-friendly, 55 ADNL, 64, 66) through EVERY text entry point: AccountIDFromRaw, ParseAccountID, MustParseAccountID, tongo.ParseAccountID, tongo.MustParseAccountID, tongo.ParseAddress, AccountID.UnmarshalJSON, MsgAddress.UnmarshalJSON, each compared with the model and with a reference (right-aligned hex digits); the entry points must agree. "
              "Raw-form variants: short and odd hex (zero fill), empty hex, upper case, '+', leading zeros, spaces, no / two colons, 65/66 "
              "hex digits, non-hex, workchain range edges. User-friendly variants: ALL 48 x (63 + 2) single-character substitutions of "
              "sampled strings in both alphabets plus 8 non-alphabet bytes per position (every one on the implementation, a deterministic "
@@ -33,7 +34,8 @@ PROP = {
              "first depth bits replaced, concurrent results = sequential results. A class is (case kind, family / boundary bucket, outcome)."),
     'explanation': ("coq/Properties/C17.v holds for all inputs of the Gallina model of ton/account.go, ton/shards.go, ton/block.go (shard "
                     "arithmetic), tlb/messages.go (MsgAddress, Anycast), liteclient/adnl.go (base32 address) and utils/crc16.go: raw, JSON "
-                    "and TL round trips for all int32 workchains x all 32-byte addresses; user-friendly round trip for all int8 workchains x "
+                    "and TL round trips for all int32 workchains x all 32-byte addresses; the raw text with any number k = 0..64 of leading zero hex digits "
+                    "left out (every total length the raw form admits, also 48) is zero filled by AccountIDFromRaw and ParseAccountID alike; user-friendly round trip for all int8 workchains x "
                     "4 flag combinations x both alphabets through AccountIDFromBase64Url and ParseAccountID; CRC-16 table loop = bitwise "
                     "XMODEM definition, CRC linear, hence every one of the 48 x 63 digit substitutions (and any non-alphabet byte) of every "
                     "printed address is rejected; TL-B addr_std round trip incl. anycast; JSON form of the TL-B address (MsgAddress "
@@ -44,7 +46,7 @@ PROP = {
                     "(length, prefix); ADNL base32 round trip. coq/Properties/C17_gen.v re-checks utils.TABLE against the table computed "
                     "from the polynomial 0x1021, the integer/character literals and the comparison/logical operators (in source order) of 20 "
                     "modelled functions, and that the files holding the parsers declare no package-level state (zero-valued or call-initialised "
-                    "variables), all translated from today's source. coq/Proofs/C17History.v refutes two seeded designs on the model: int8 test "
+                    "variables), all translated from today's source. coq/Proofs/C17History.v refutes seeded designs on the model: a length-48 fast path in ParseAccountID (rejects the raw text 0:<46 hex>),  int8 test "
                     "with an exclusive lower bound (workchain -128 lost through the JSON form) and one CRC register shared by concurrent calls "
                     "(an interleaving accepts a corrupted string and rejects a valid one)."),
     'assumptions': ["Go's encoding/base64, base32, hex, strconv.ParseInt, fmt %v/%x, strings.Map/TrimSuffix/ToUpper and snksoft/crc XMODEM are "
